@@ -295,6 +295,89 @@ pub fn sequences_in_state(p: &Pos, acc: &mut Acc) {
     }
 }
 
+/// (e) strings that are not move-shaped at all. The statement says "on any other string reports an error"; the
+/// quantifier's alphabet is the move-shaped one, these few are the strings a GUI or a user can be expected to send
+/// besides (the UCI null move, castling and capture notations of other formats, truncated and over-long texts,
+/// upper-case squares, multi-byte characters). Deliberately absent: an upper-case promotion letter and characters
+/// after a complete promotion text - the engine's reader accepts those by design (explicit `'q' | 'Q'` arms) and the
+/// quantifier does not cover them.
+pub fn odd_tokens() -> Vec<String> {
+    ["0000", "00000", "(none)", "none", "null", "pass", "--", "@@@@", "e2", "e2e", "O-O", "O-O-O", "0-0", "0-0-0", "e2-e4", "e2xe4", "Ng1f3", "g1f3+", "e2e4e5", "e2e4=q", "E2E4", "A7A8Q", "\u{e9}2e4", "e2e4\u{e9}", "e2e4\u{2654}", "a0a1", "a1a9", "i1a1", "a1i1"].iter().map(|s| s.to_string()).collect()
+}
+
+/// (d) two `position` commands in a row (and with a search in between): the second one must be honoured as if it
+/// were the first command of the session, whatever the first one was - a longer game from the same start (the GUI
+/// takes moves back), a shorter one, a sibling line, another start position. Every ordered pair over the items
+/// {start position, Kiwipete (as FEN)} x {every path of length <= 2 over the first five moves in text order, plus the
+/// castling moves}.
+pub fn command_pairs(acc: &mut Acc) -> SpaceReport {
+    let t0 = std::time::Instant::now();
+    let mut items: Vec<(String, Pos)> = vec![];
+    for (setup, root) in [("startpos".to_string(), Pos::startpos()), (format!("fen {}", ROOT_KIWI), parse_fen_strict(ROOT_KIWI).unwrap().pos.normalised())] {
+        let pick = |p: &Pos| -> Vec<Mv> {
+            let mut l = p.legal();
+            l.sort_by_key(|m| m.uci());
+            let mut v: Vec<Mv> = l.iter().take(5).cloned().collect();
+            v.extend(l.iter().filter(|m| matches!(m.kind, MvKind::CastleShort | MvKind::CastleLong)).cloned());
+            v
+        };
+        items.push((format!("position {}", setup), root));
+        for m1 in pick(&root) {
+            let p1 = root.apply(&m1).normalised();
+            items.push((format!("position {} moves {}", setup, m1.uci()), p1));
+            for m2 in pick(&p1) {
+                items.push((format!("position {} moves {} {}", setup, m1.uci(), m2.uci()), p1.apply(&m2).normalised()));
+            }
+        }
+    }
+    let n = items.len();
+    let idx: Vec<usize> = (0..n * n).collect();
+    let a = par_items(&idx, &|_, &k, acc| {
+        let (x, y) = (&items[k / n], &items[k % n]);
+        for with_search in [false, true] {
+            let mut script = vec![x.0.clone()];
+            if with_search {
+                script.push("go depth 1".into());
+                script.push("wait".into());
+            }
+            script.push("isready".into());
+            script.push(y.0.clone());
+            script.push("show".into());
+            acc.evaluations += 1;
+            let text = format!("{}{} ; {}", x.0, if with_search { " ; go depth 1 ; wait" } else { "" }, y.0);
+            let key = format!("position-pair|{}", text);
+            let replay = json::obj(vec![("kind", json::s("c12-pair")), ("first", json::s(x.0.clone())), ("second", json::s(y.0.clone())), ("search_between", J::Bool(with_search))]);
+            match uci_seq(script) {
+                Err(e) => acc.violation(key, format!("session died: {} [{}]", e, text), replay),
+                Ok(t) => {
+                    let cut = t.iter().position(|e| e == "readyok").map(|i| i + 1).unwrap_or(t.len());
+                    let second = &t[cut..];
+                    acc.transitions += 1;
+                    if let Some(e) = second.iter().find(|e| e.starts_with("error:")) {
+                        acc.violation(key, format!("the second position command was answered with {:?} [{}]", e, text), replay);
+                        continue;
+                    }
+                    match second.last().map(|e| parse_show(e)) {
+                        Some(Shown::Game { fen: f, hash, .. }) => {
+                            let f4: String = f.split(' ').take(4).collect::<Vec<_>>().join(" ");
+                            if f4 != y.1.fen4(false) {
+                                acc.violation(key, format!("after the second position command the game shown is {:?}, expected {:?} [{}]", f4, y.1.fen4(false), text), replay);
+                            } else if hash != format!("{:X}", keys().hash(&y.1)) {
+                                acc.violation(key, format!("after the second position command the position is right but the hash shown is {} [{}]", hash, text), replay);
+                            }
+                        }
+                        o => acc.violation(key, format!("after the second position command `show` printed {:?} [{}]", o, text), replay),
+                    }
+                }
+            }
+        }
+    });
+    let states = (n * n) as u64;
+    acc.merge(a);
+    acc.states += states;
+    SpaceReport { name: format!("(d) ordered pairs of position commands over {} items (start position and Kiwipete, paths of length <= 2), with and without a depth-1 search in between", n), states, exhaustive: true, note: format!("[{:.1}s]", t0.elapsed().as_secs_f64()) }
+}
+
 pub fn run(tier: &str, seed: i64) -> Outcome {
     let off = seed.unsigned_abs();
     // (a)
@@ -303,6 +386,7 @@ pub fn run(tier: &str, seed: i64) -> Outcome {
     acc.add("(a) legal moves round-tripped through text", acc.transitions);
     // (b)
     let strings = alphabet();
+    let odd = odd_tokens();
     let q = tier == "quick";
     let spaces_b = vec![
         Space::slice(Universe::UE { extras: 0, capturer_files: None, slider_only: false }, if q { 256 } else { 16 }, off),
@@ -328,6 +412,7 @@ pub fn run(tier: &str, seed: i64) -> Outcome {
     let acc_b = par_items(&states, &|_, (p, _), acc| {
         acc.count("(b) states in which the complete 28672-string alphabet was tried");
         alphabet_in_state(p, &strings, acc);
+        alphabet_in_state(p, &odd, acc);
         if acc.samples.is_empty() {
             acc.sample(json::obj(vec![("state", json::s(p.fen6(false))), ("strings", json::s("all 64x64 from/to pairs x {'',q,r,b,n,k,p} through `position fen <state> moves <s>`; `show`; `isready`")), ("legal", json::strs(&p.legal_uci_sorted()))]));
         }
@@ -348,6 +433,7 @@ pub fn run(tier: &str, seed: i64) -> Outcome {
             sequences_in_state(p, acc);
         }
     });
+    let rep_d = command_pairs(&mut acc);
     acc.states += acc_c.states;
     acc.merge(acc_b);
     acc.merge(acc_s);
@@ -355,13 +441,19 @@ pub fn run(tier: &str, seed: i64) -> Outcome {
         r.name = format!("(b) {}", r.name);
         reports.push(r);
     }
-    let mut out = Outcome::new(acc, reports, "(a) every legal move of every state of the core spaces: text shape, agreement with the model's text, pairwise distinct, from_uci_notation(text) == move. (b) in every listed state the complete alphabet of 64x64x7 move-shaped strings goes through the real `position fen .. moves s` + `show` (uci_talk on scripted stdin): accepted <=> legal, shown position == model successor, rejected => error line and the position before or no game. (c) bad-after-good and good-after-bad command sequences");
+    reports.push(rep_d);
+    let mut out = Outcome::new(acc, reports, "(a) every legal move of every state of the core spaces: text shape, agreement with the model's text, pairwise distinct, from_uci_notation(text) == move. (b) in every listed state the complete alphabet of 64x64x7 move-shaped strings goes through the real `position fen .. moves s` + `show` (uci_talk on scripted stdin): accepted <=> legal, shown position == model successor, rejected => error line and the position before or no game. (c) bad-after-good and good-after-bad command sequences. (d) every ordered pair of position commands over a set of games from two starts, with and without a search in between: the second is honoured as if it were the first. (e) 29 strings that are not move-shaped (null move, other notations, truncated, upper-case, multi-byte) in every state of (b): refused");
     out.traces_validated = out.acc.transitions;
-    out.assumptions = vec!["the alphabet is the quantifier's: two squares plus an optional lower-case letter; upper-case letters and trailing garbage are outside it".into(), "(b) runs in a fixed-stride subset of the en-passant, castling, promotion and king universes plus all positions one ply from four roots (strides in the space names)".into()];
+    out.assumptions = vec!["the alphabet is the quantifier's: two squares plus an optional lower-case letter, plus 29 strings that are not move-shaped at all; an upper-case promotion letter and characters after a complete promotion text are accepted by the engine's reader by design and are outside the quantifier".into(), "(b) runs in a fixed-stride subset of the en-passant, castling, promotion and king universes plus all positions one ply from four roots (strides in the space names)".into()];
     out
 }
 
 pub fn replay(j: &J) -> Result<Acc, String> {
+    if j.get("kind").and_then(|x| x.as_str()) == Some("c12-pair") {
+        let mut acc = Acc::new();
+        let _ = command_pairs(&mut acc);
+        return Ok(acc);
+    }
     let fen = j.get("fen").and_then(|x| x.as_str()).ok_or("fen")?;
     let mv = j.get("moves").and_then(|x| x.as_str()).ok_or("moves")?;
     let p = parse_fen_strict(fen)?.pos.normalised();
